@@ -490,6 +490,10 @@ ERR_TOKENS = {
     "Ntype": (ref.NMEA, "frame", ref.nmea_sentence("GNGGA,080247.00,5327.04300,N,00214.41385,W,x,07,1.63,36.7,M,48.5,M,,")),  # NMEATypeError
     "Utype": (ref.UBX, "frame", ref.frame(0x0B, 0x02, b"\x00")),  # AID-HUI cut inside a field: UBXTypeError
     "Umsg": (ref.UBX, "frame", ref.frame(0x06, 0x8B, bytes(9))),  # CFG-VALGET with key 0: UBXMessageError
+    # zero-length RTCM3 frames with a wrong CRC whose last byte is a frame-start byte (all 6 bytes belong to the frame)
+    "RzB5": (ref.RTCM, "frame", b"\xd3\x00\x00\x47\xea\xb5"),
+    "Rz24": (ref.RTCM, "frame", b"\xd3\x00\x00\x47\xea\x24"),
+    "RzD3": (ref.RTCM, "frame", b"\xd3\x00\x00\x47\xea\xd3"),
 }
 # frame headers that announce far more data than follows (length field >= 0x8000, or the RTCM3 maximum): they swallow
 # whatever comes next, so they are used only by the differential checks (no by-construction expectation applies)
